@@ -184,8 +184,45 @@ theorem logspace_generate (b x : ℝ) (hb : 1 < b) :
   have hb0 : 0 < b := by linarith
   rw [Real.log_rpow hb0, mul_div_assoc, div_self (Real.log_pos hb).ne', mul_one]
 
+/-! ### "after normalize()" over every history of the object -/
+
+/-- whatever else happened to the object, once `normalize()` has been called (directly or by a
+    `Mixture` constructor) — any number of times — the constant it carries is the textbook one -/
+theorem normalize_history {α : Type} (c zero : α) (ops : List Dist.NormOp)
+    (h : ∃ o ∈ ops, o ≠ Dist.NormOp.evaluate) : Dist.normRun c zero ops = c := by
+  unfold Dist.normRun
+  -- generalise the start value; induct from the right
+  induction ops using List.reverseRecOn with
+  | nil => obtain ⟨o, ho, _⟩ := h; cases ho
+  | append_singleton l a ih =>
+    rw [List.foldl_append]
+    cases a with
+    | normalize => rfl
+    | mixtureInit => rfl
+    | evaluate =>
+      simp only [List.foldl_cons, List.foldl_nil, Dist.normStep]
+      apply ih
+      obtain ⟨o, ho, hne⟩ := h
+      rcases List.mem_append.mp ho with h1 | h1
+      · exact ⟨o, h1, hne⟩
+      · simp at h1; exact absurd h1 hne
+
+/-- and an object that was never normalised carries the constructor's 0 -/
+theorem never_normalized {α : Type} (c zero : α) (ops : List Dist.NormOp)
+    (h : ∀ o ∈ ops, o = Dist.NormOp.evaluate) : Dist.normRun c zero ops = zero := by
+  unfold Dist.normRun
+  induction ops with
+  | nil => rfl
+  | cons a l ih =>
+    have ha := h a (by simp)
+    subst ha
+    simp only [List.foldl_cons, Dist.normStep]
+    exact ih (fun o ho => h o (by simp [ho]))
+
 /-! ### non-vacuity -/
 example : (0:ℝ) < 2.5 := by norm_num
+example : Dist.normRun (3:ℝ) 0 [.evaluate, .normalize, .mixtureInit, .normalize, .evaluate] = 3 :=
+  normalize_history _ _ _ ⟨.normalize, by simp, by simp⟩
 
 end C14
 end HmcVerif
